@@ -78,6 +78,27 @@ def explore(ctx, depth):
                          'include=all / exclude=nothing is not the identity', impl=got, expected=base)
 
 
+    # the objects a caller passes as include / exclude (and the library's own category sets) are not consumed: the same set object used for a
+    # second export gives what a fresh equal set gives
+    for case in (fixed + rnd)[:8 if depth == 'quick' else 40]:
+        if case.doc is None:
+            continue
+        for inc0, exc1 in ((set(kp.BEKERN_CATEGORIES), {TC.BARLINES}), ({TC.DURATION, TC.PITCH, TC.ALTERATION, TC.DECORATION, TC.REST, TC.CHORD, TC.LYRICS, TC.STRUCTURAL}, {TC.DECORATION}),
+                           (None, {TC.CORE})):
+            for shared in ((kp.BEKERN_CATEGORIES if inc0 == set(kp.BEKERN_CATEGORIES) else inc0), ):
+                before = None if shared is None else set(shared)
+                first = call(lambda: kp.dumps(case.doc, include=shared, exclude=exc1))
+                second = call(lambda: kp.dumps(case.doc, include=shared))
+                fresh = call(lambda: kp.dumps(case.doc, include=None if before is None else set(before)))
+                ctx.seen({'text': case.text, 'clause': 'argument objects are not consumed', 'include': str(inc0)[:60]}, True)
+                if second != fresh or (before is not None and set(shared) != before):
+                    ctx.fail({'text': case.text, 'clause': 'argument objects are not consumed', 'include': sorted(c.name for c in before) if before else None,
+                              'first_call_exclude': sorted(c.name for c in exc1)},
+                             'a second export with the same include object differs from an export with a fresh equal set (or the object was changed)',
+                             impl={'second': second, 'object_now': sorted(c.name for c in shared) if shared is not None else None},
+                             expected={'second': fresh, 'object_now': sorted(c.name for c in before) if before else None})
+
+
 def replay(ctx, payload):
     explore(ctx, 'quick')
 
